@@ -267,6 +267,11 @@ func QuickHistories() []History {
 		{Name: "q15-siblings-disconnect", Ops: []Op{reg(idA, 1), child(idA, idC, 2), child(idA, idD, 3), {Kind: OpPDisconnect, ID: idA, Child: idC}, {Kind: OpPoll, ID: idA}}},
 		{Name: "q16-siblings-child-dies", Ops: []Op{reg(idA, 1), child(idA, idC, 2), child(idA, idD, 3), {Kind: OpMarkDead, ID: idD}, {Kind: OpRestart}, {Kind: OpPoll, ID: idA}}},
 		{Name: "q17-siblings-move", Ops: []Op{reg(idA, 1), reg(idB, 2), child(idA, idC, 3), child(idA, idD, 4), child(idB, idC, 3), {Kind: OpPDisconnect, ID: idA, Child: idD}}},
+		// a session that ends up below a parent registered AFTER it (row order in the session
+		// table is registration order: a restore must not depend on parents coming first)
+		{Name: "q18-move-below-later-parent", Ops: []Op{reg(idA, 1), child(idA, idC, 2), reg(idB, 3), {Kind: OpPDisconnect, ID: idA, Child: idC}, child(idB, idC, 2), {Kind: OpPoll, ID: idA}}},
+		{Name: "q19-move-below-later-parent-nodisc", Ops: []Op{reg(idA, 1), child(idA, idC, 2), reg(idB, 3), child(idB, idC, 2), {Kind: OpPoll, ID: idB}}},
+		{Name: "q20-subtree-moves-below-later-parent", Ops: []Op{reg(idA, 1), child(idA, idC, 2), child(idC, idD, 4), reg(idB, 3), child(idB, idC, 2), {Kind: OpPoll, ID: idB}}},
 		{Name: "q08-listeners", Ops: []Op{{Kind: OpLAdd, L: smb("smb1", "pipe1")}, {Kind: OpLAdd, L: ext("ext1", "ep1")}, {Kind: OpLRemove, Name: "smb1"}, {Kind: OpLAdd, L: smb("smb2", `\\.\pipe\x`)}, {Kind: OpLRemove, Name: "ext1"}, {Kind: OpLAdd, L: smb("smb1", "pipe1b")}}},
 		{Name: "q09-mixed", Ops: []Op{{Kind: OpLAdd, L: smb("s", "007")}, reg(idA, 1), {Kind: OpLAdd, L: ext("e", "1e3")}, child(idA, idC, 2), {Kind: OpLRemove, Name: "s"}, {Kind: OpExit, ID: idA}}},
 		{Name: "q10-http", Ops: []Op{{Kind: OpLAdd, L: httpL("h1", nil)}, reg(idA, 1), {Kind: OpLAdd, L: httpL("h2", map[string]string{"Headers": "", "Uris": "", "Proxy Enabled": "false", "HostHeader": "", "PortConn": ""})}}},
